@@ -16,7 +16,7 @@ from ..fa import FA
 from ..loader import AnalysisError
 from .valeq import check_typed_identity
 from .ladders import extract_ladder, check_ladder_order, repo_subclass_pairs
-from .c16 import (subst_names, FlatInit, outliving_state_reads, canon_conj, conds, fexpand, ftext, is_copy_of, lit_expr, map_shape, origin, same_def, single_def, strip_cast, _ref_name)
+from .c16 import (subst_names, FlatInit, is_empty_value, never_rebound_display, outliving_state_reads, canon_conj, conds, fexpand, ftext, is_copy_of, lit_expr, map_shape, origin, same_def, single_def, strip_cast, _ref_name)
 
 AH = "reference.ArgumentHasher"
 FRA = "reference.FunctionReferenceWithArguments"
@@ -881,6 +881,497 @@ def _line_of(fa, node_id):
         return "?"
 
 
+# ---- the derived key fields of a reference-with-arguments follow their inputs, whoever writes them
+FRA_CLS = "FunctionReferenceWithArguments"
+# field -> the fields computed from it (the chain the constructor establishes: bound values -> effective kwargs ->
+# effective kwargs + context args -> argument hash)
+DERIVED_FROM = {
+    "fn_reference": ("effective_kwargs", "effective_kwargs_with_context_args", "arg_hash"),
+    "args": ("effective_kwargs", "effective_kwargs_with_context_args", "arg_hash"),
+    "kwargs": ("effective_kwargs", "effective_kwargs_with_context_args", "arg_hash"),
+    "context_args": ("effective_kwargs_with_context_args", "arg_hash"),
+    "effective_kwargs": ("effective_kwargs_with_context_args", "arg_hash"),
+    "effective_kwargs_with_context_args": ("arg_hash",),
+    "arg_hash": (),
+}
+# fields no other class of the package has: a store to one of them is a store to such a reference whatever the receiver
+_FRA_ONLY = ("effective_kwargs", "effective_kwargs_with_context_args")
+
+
+def _is_fra_class_expr(fi, e, self_name, cls_name):
+    """does `e` denote the class FunctionReferenceWithArguments (or the class of an instance of it)?"""
+    e = strip_cast(e)
+    d = A.dotted(e) or ""
+    if d.split(".")[-1] == FRA_CLS:
+        return True
+    in_fra = fi.cls is not None and fi.cls.name == FRA_CLS
+    if in_fra and cls_name is not None and d == cls_name:
+        return True
+    if in_fra and self_name is not None:
+        if d == self_name + ".__class__":
+            return True
+        if isinstance(e, ast.Call) and isinstance(e.func, ast.Name) and e.func.id == "type" and len(e.args) == 1 and A.norm(e.args[0]) == self_name:
+            return True
+    return False
+
+
+def _denotes_fra(fa, e, at, self_name, cls_name, depth=4):
+    """is the object `e` evaluates to at node `at` a FunctionReferenceWithArguments, as far as the function shows: the
+    receiver of one of its methods, a copy of one, a bare instance of the class, a constructed one, a parameter (or an
+    element of a parameter) annotated with the class"""
+    e = strip_cast(e)
+    fi = fa.fi
+    if isinstance(e, ast.Name):
+        if self_name is not None and e.id == self_name and fi.cls is not None and fi.cls.name == FRA_CLS:
+            return True
+        if depth <= 0:
+            return False
+        try:
+            ds = fa.df.reaching(at, e.id)
+        except Exception:
+            return False
+        if not ds:
+            return False
+        for d in ds:
+            if d.kind == "param":
+                if not _annotated_fra(fi, e.id, False):
+                    return False
+            elif d.kind == "for" and d.value is not None:
+                it = strip_cast(d.value)
+                if not (isinstance(it, ast.Name) and _annotated_fra(fi, it.id, True)):
+                    return False
+            elif d.kind == "assign" and d.value is not None:
+                if not _denotes_fra(fa, d.value, d.node, self_name, cls_name, depth - 1):
+                    return False
+            else:
+                return False
+        return True
+    if isinstance(e, ast.IfExp):
+        return _denotes_fra(fa, e.body, at, self_name, cls_name, depth) and _denotes_fra(fa, e.orelse, at, self_name, cls_name, depth)
+    if isinstance(e, ast.Call):
+        d = A.call_dotted(e) or ""
+        last = A.call_attr(e) or d.split(".")[-1]
+        if last in ("copy", "deepcopy") and len(e.args) >= 1 and d in ("copy.copy", "copy.deepcopy", "copy", "deepcopy"):
+            return _denotes_fra(fa, e.args[0], at, self_name, cls_name, depth)
+        if last == "__new__" and isinstance(e.func, ast.Attribute):
+            if _is_fra_class_expr(fi, e.func.value, self_name, cls_name):
+                return True
+            return bool(e.args) and _is_fra_class_expr(fi, e.args[0], self_name, cls_name)
+        if _is_fra_class_expr(fi, e.func, self_name, cls_name):
+            return True
+        if last == "with_args" and isinstance(e.func, ast.Attribute):
+            return True
+    return False
+
+
+def _annotated_fra(fi, name, element):
+    a = fi.node.args
+    for x in list(getattr(a, "posonlyargs", [])) + list(a.args) + list(a.kwonlyargs):
+        if x.arg == name and x.annotation is not None:
+            txt = A.norm(x.annotation)
+            if FRA_CLS not in txt:
+                return False
+            bare = txt.strip("'\"").split(".")[-1] == FRA_CLS or txt.strip("'\"") == "Optional[%s]" % FRA_CLS
+            return (not bare) if element else bare
+    return False
+
+
+def _instance_dict_of(e):
+    """the object whose attribute dictionary `e` is (`obj.__dict__`, `vars(obj)`), or None"""
+    e = strip_cast(e)
+    if isinstance(e, ast.Attribute) and e.attr == "__dict__":
+        return e.value
+    if isinstance(e, ast.Call) and isinstance(e.func, ast.Name) and e.func.id == "vars" and len(e.args) == 1 and not e.keywords:
+        return e.args[0]
+    return None
+
+
+def _key_field_stores(fa):
+    """every statement of the function that binds a key field of some object: [(receiver expr, field, stmt)] — plain
+    attribute assignment, setattr / object.__setattr__ with a literal name, a store into / update of the instance __dict__"""
+    out = []
+    for st in fa.stmts((ast.Assign, ast.AugAssign, ast.AnnAssign, ast.Expr, ast.Delete, ast.For, ast.With)):
+        tgs = []
+        if isinstance(st, ast.Assign):
+            tgs = list(st.targets)
+        elif isinstance(st, (ast.AugAssign, ast.AnnAssign)):
+            tgs = [st.target] if not (isinstance(st, ast.AnnAssign) and st.value is None) else []
+        elif isinstance(st, ast.Delete):
+            tgs = list(st.targets)
+        elif isinstance(st, ast.For):
+            tgs = [st.target]
+        elif isinstance(st, ast.With):
+            tgs = [i.optional_vars for i in st.items if i.optional_vars is not None]
+        flat = []
+        while tgs:
+            t = tgs.pop()
+            if isinstance(t, (ast.Tuple, ast.List)):
+                tgs += list(t.elts)
+            elif isinstance(t, ast.Starred):
+                tgs.append(t.value)
+            else:
+                flat.append(t)
+        for t in flat:
+            if isinstance(t, ast.Attribute) and t.attr in DERIVED_FROM:
+                out.append((t.value, t.attr, st))
+            elif isinstance(t, ast.Subscript) and _instance_dict_of(t.value) is not None and A.const_str(t.slice) in DERIVED_FROM:
+                out.append((_instance_dict_of(t.value), A.const_str(t.slice), st))
+        if isinstance(st, ast.Expr) and isinstance(st.value, ast.Call):
+            c = st.value
+            d = A.call_dotted(c) or ""
+            if d.split(".")[-1] in ("setattr", "__setattr__", "delattr", "__delattr__") and len(c.args) >= 2 and A.const_str(c.args[1]) in DERIVED_FROM \
+                    and (isinstance(c.func, ast.Name) or d.startswith("object.")):
+                out.append((c.args[0], A.const_str(c.args[1]), st))
+            elif A.call_attr(c) in ("__setattr__", "__delattr__") and len(c.args) >= 1 and A.const_str(c.args[0]) in DERIVED_FROM and A.call_recv(c) is not None:
+                out.append((A.call_recv(c), A.const_str(c.args[0]), st))
+            elif A.call_attr(c) in ("__setitem__", "setdefault", "pop") and A.call_recv(c) is not None and _instance_dict_of(A.call_recv(c)) is not None \
+                    and c.args and A.const_str(c.args[0]) in DERIVED_FROM:
+                out.append((_instance_dict_of(A.call_recv(c)), A.const_str(c.args[0]), st))
+            elif A.call_attr(c) == "update" and A.call_recv(c) is not None and _instance_dict_of(A.call_recv(c)) is not None:
+                names = [k.arg for k in c.keywords if k.arg in DERIVED_FROM]
+                for a in c.args:
+                    if isinstance(a, ast.Dict):
+                        names += [A.const_str(k) for k in a.keys if k is not None and A.const_str(k) in DERIVED_FROM]
+                for nm_ in names:
+                    out.append((_instance_dict_of(A.call_recv(c)), nm_, st))
+            elif A.call_attr(c) == "__init__" and A.call_recv(c) is not None and not (isinstance(A.call_recv(c), ast.Call) and A.call_dotted(A.call_recv(c)) == "super"):
+                # the object is put through its constructor again: every field is made anew
+                for nm_ in DERIVED_FROM:
+                    out.append((A.call_recv(c), nm_, st))
+    return out
+
+
+def derived_fields_clause(ck, rule):
+    """The argument hash of a FunctionReferenceWithArguments is the hash of its effective kwargs plus its context args, and
+    those are bound from its reference, args and kwargs: the constructor establishes that chain.  Whoever else binds one
+    of these fields of such an object (a modifier that copies the reference and swaps a field, a setter, a __setstate__)
+    has to bind every field derived from it again afterwards, on every path to its end; otherwise the object shows the new
+    value while it is keyed, stored and served under the old one."""
+    n_fn = n_st = 0
+    try:
+        computed = set(ck.repo.cls("reference." + FRA_CLS).methods)
+    except AnalysisError:
+        computed = set()
+    for fi in ck.repo.all_funcs():
+        if not any((isinstance(n, ast.Attribute) and n.attr in DERIVED_FROM and isinstance(n.ctx, (ast.Store, ast.Del))) or
+                   (isinstance(n, ast.Constant) and isinstance(n.value, str) and n.value in DERIVED_FROM) or
+                   (isinstance(n, ast.keyword) and n.arg in DERIVED_FROM) for n in ast.walk(fi.node)):
+            continue
+        try:
+            fa = FA(ck, fi)
+        except (AnalysisError, RecursionError):
+            continue
+        raw = _key_field_stores(fa)
+        if not raw:
+            continue
+        nd = fi.node
+        decos = {A.dotted(d) for d in nd.decorator_list}
+        ps = [a.arg for a in list(getattr(nd.args, "posonlyargs", [])) + list(nd.args.args)]
+        is_method = fi.cls is not None and fi.parent is None
+        self_name = ps[0] if is_method and ps and not ({"staticmethod", "classmethod"} & decos) else None
+        cls_name = ps[0] if is_method and ps and "classmethod" in decos else None
+        stores = {}     # receiver text -> [(field, stmt, node)]
+        # (a receiver that is given one of the fields only such a reference has is one, wherever it came from)
+        known = {A.norm(strip_cast(recv)) for (recv, field, st) in raw if field in _FRA_ONLY}
+        for (recv, field, st) in raw:
+            ids = fa.nodes(st)
+            if not ids:
+                continue
+            r = strip_cast(recv)
+            typed = A.norm(r) in known or _denotes_fra(fa, r, ids[0], self_name, cls_name)
+            if not typed:
+                continue
+            if not typed and fi.cls is not None and fi.cls.name != FRA_CLS and isinstance(r, ast.Name) and r.id == self_name:
+                continue    # a class of its own that happens to have a field of that name
+            for i in ids:
+                stores.setdefault(A.norm(r), []).append((field, st, i))
+        ctor = fi.cls is not None and fi.cls.name == FRA_CLS and fi.name == "__init__"
+        for rtxt, lst in sorted(stores.items()):
+            if ctor and rtxt == self_name:
+                continue    # the constructor itself: decided by the R3 clauses on the flattened constructor
+            n_fn += 1
+            for (field, st, i) in lst:
+                if isinstance(st, ast.Expr) and A.call_attr(st.value) == "__init__":
+                    continue
+                n_st += 1
+                stale = []
+                for g in DERIVED_FROM[field]:
+                    if g in computed:
+                        continue    # computed on demand from the other fields: nothing is kept that could go stale
+                    again = {j for (f2, _s2, j) in lst if f2 == g}
+                    if not fa.cfg.always_reaches(i, again, [fa.cfg.exit]):
+                        stale.append(g)
+                ok = not stale
+                ck.ob(rule, fa.key(st, "derived-follow:%s.%s" % (rtxt, field)), ok,
+                      "`%s`: every field derived from %s.%s is bound again afterwards" % (A.short(st, 50), rtxt, field) if ok else
+                      "`%s` binds %s of a FunctionReferenceWithArguments outside its constructor and %s %s not computed again afterwards on every path to the "
+                      "end of %s: the object shows the new %s, but its key (arg_hash) is still the one of the old value - two calls that differ in "
+                      "%s share one key and one stored result, and the body / the record see values the key was not computed from"
+                      % (A.short(st, 60), field, ", ".join(stale), "is" if len(stale) == 1 else "are", fi.qual, field, field), fa.where(st))
+    ck.ob(rule, "key-fields::scan", True, "%d writers of key fields of a FunctionReferenceWithArguments outside its constructor (%d stores)" % (n_fn, n_st), "")
+
+
+# ---- argument values are never looked up by Python equality in something that outlives the call
+_EQ_LOOKUPS = ("get", "setdefault", "pop", "__contains__", "__getitem__", "__setitem__", "__delitem__", "add", "discard", "remove", "index", "count")
+_SHAPE_KEEPING = ("tuple", "list", "frozenset", "set", "sorted", "reversed", "dict", "items", "values", "zip", "enumerate", "chain", "copy", "deepcopy", "OrderedDict")
+_FRESH_CALLS = ("dict", "list", "set", "tuple", "frozenset", "OrderedDict", "defaultdict", "Counter", "deque", "sorted", "copy", "deepcopy")
+
+
+def _value_in_key(fa, key, at, value_params):
+    """the value parameters that are part of `key` AS VALUES — compared and hashed the way Python compares them, under which
+    1 == 1.0 == True and 0 == 0.0 == False: named directly, through locals, inside tuples / lists / sets, concatenated,
+    sorted, as items of a mapping, element by element.  What goes through a typed rendering (the argument hash, the
+    canonical JSON text, json.dumps, repr) or is only measured (len, bool, type, isinstance) is not in the key as a value;
+    an element that stands next to its own type (`(type(v), v)`) is told apart by it."""
+    found = set()
+    seen = set()
+
+    def rec(x, node, bound=()):
+        x = strip_cast(x)
+        if isinstance(x, ast.Name):
+            if x.id in bound:
+                return
+            try:
+                ds = fa.df.reaching(node, x.id)
+            except Exception:
+                ds = []
+            for d in ds:
+                if d.kind == "param":
+                    if x.id in value_params:
+                        found.add(x.id)
+                    continue
+                if (d.node, d.name) in seen or d.value is None:
+                    continue
+                seen.add((d.node, d.name))
+                if d.kind in ("assign", "aug", "for", "unpack"):
+                    # (an element of a sequence of values is a value)
+                    rec(d.value, d.node)
+                    if d.kind == "aug" and d.stmt is not None and isinstance(d.stmt, ast.AugAssign):
+                        rec(d.stmt.target, d.node) if not isinstance(d.stmt.target, ast.Name) else None
+            return
+        if isinstance(x, ast.NamedExpr):
+            return rec(x.value, node, bound)
+        if isinstance(x, (ast.Tuple, ast.List, ast.Set)):
+            typed = {A.norm(e.args[0]) for e in x.elts if isinstance(e, ast.Call) and isinstance(e.func, ast.Name) and e.func.id == "type" and len(e.args) == 1}
+            for e in x.elts:
+                if A.norm(e) not in typed:
+                    rec(e, node, bound)
+            return
+        if isinstance(x, ast.Starred):
+            return rec(x.value, node, bound)
+        if isinstance(x, ast.BinOp) and isinstance(x.op, (ast.Add, ast.BitOr)):
+            rec(x.left, node, bound)
+            return rec(x.right, node, bound)
+        if isinstance(x, ast.IfExp):
+            rec(x.body, node, bound)
+            return rec(x.orelse, node, bound)
+        if isinstance(x, ast.BoolOp):
+            for v in x.values:
+                rec(v, node, bound)
+            return
+        if isinstance(x, ast.Subscript):
+            return rec(x.value, node, bound)
+        if isinstance(x, (ast.ListComp, ast.GeneratorExp, ast.SetComp)):
+            # the element is made of the loop variables, which stand for the elements of what is iterated over
+            names = set()
+            for g in x.generators:
+                names |= {n.id for n in ast.walk(g.target) if isinstance(n, ast.Name)}
+            inner = set()
+            sub_found = _free_value_names(x.elt, names)
+            if sub_found:
+                for g in x.generators:
+                    rec(g.iter, node, bound)
+            rec(x.elt, node, tuple(set(bound) | names))
+            return
+        if isinstance(x, ast.Call):
+            nm = A.call_attr(x)
+            if nm in _SHAPE_KEEPING:
+                for a in list(x.args) + ([x.func.value] if isinstance(x.func, ast.Attribute) and nm in ("items", "values", "copy") else []):
+                    rec(a, node, bound)
+            return
+        return
+
+    rec(key, at)
+    return found
+
+
+def _free_value_names(elt, names):
+    """does the element of a comprehension carry a loop variable as a value (not only its type / size)?"""
+    hit = []
+
+    def rec(x):
+        x = strip_cast(x)
+        if isinstance(x, ast.Name):
+            if x.id in names:
+                hit.append(x.id)
+        elif isinstance(x, (ast.Tuple, ast.List, ast.Set)):
+            typed = {A.norm(e.args[0]) for e in x.elts if isinstance(e, ast.Call) and isinstance(e.func, ast.Name) and e.func.id == "type" and len(e.args) == 1}
+            for e in x.elts:
+                if A.norm(e) not in typed:
+                    rec(e)
+        elif isinstance(x, ast.Starred):
+            rec(x.value)
+        elif isinstance(x, ast.Subscript):
+            rec(x.value)
+        elif isinstance(x, ast.IfExp):
+            rec(x.body)
+            rec(x.orelse)
+        elif isinstance(x, ast.BinOp) and isinstance(x.op, (ast.Add, ast.BitOr)):
+            rec(x.left)
+            rec(x.right)
+        elif isinstance(x, ast.Call) and A.call_attr(x) in _SHAPE_KEEPING:
+            for a in x.args:
+                rec(a)
+    rec(elt)
+    return hit
+
+
+def _outlives_call(fa, t, at, value_params, depth=4):
+    """is the container `t` something that is there before the call and stays after it (a field of the receiver, of a class,
+    of the module, of an object handed in), as opposed to one this call made for itself or the caller's own argument?
+    Returns a description, or None."""
+    t = strip_cast(t)
+    if isinstance(t, ast.Call):
+        nm = A.call_attr(t)
+        if nm in _FRESH_CALLS or isinstance(t.func, ast.Name) and t.func.id in _FRESH_CALLS:
+            return None
+        if nm in ("setdefault", "get", "__getitem__") and A.call_recv(t) is not None:
+            return _outlives_call(fa, A.call_recv(t), at, value_params, depth)   # a sub-table of a table
+        if nm == "getattr" and t.args:
+            return _outlives_call(fa, t.args[0], at, value_params, depth) and A.short(t, 40)
+        if isinstance(t.func, ast.Attribute):
+            root = t.func.value
+            while isinstance(root, (ast.Attribute, ast.Subscript)):
+                root = root.value
+            if isinstance(root, ast.Name) and root.id in ("self", "cls") or (isinstance(root, ast.Name) and root.id in fa.fi.module.classes):
+                return A.short(t, 40)
+        return None
+    if isinstance(t, (ast.Dict, ast.List, ast.Set, ast.Tuple, ast.DictComp, ast.ListComp, ast.SetComp, ast.Constant, ast.JoinedStr)):
+        return None
+    if isinstance(t, ast.Subscript):
+        return _outlives_call(fa, t.value, at, value_params, depth)
+    name = _ref_name(t)
+    if isinstance(t, ast.Name) or (name is not None and name.startswith("self.")):
+        nm = t.id if isinstance(t, ast.Name) else name
+        try:
+            ds = fa.df.reaching(at, nm)
+        except Exception:
+            ds = []
+        if ds and depth > 0:
+            res = None
+            for d in ds:
+                if d.kind == "param":
+                    if nm in value_params:
+                        continue
+                    ps = fa.fi.params
+                    if fa.fi.cls is not None and ps and nm == ps[0]:
+                        continue
+                    res = res or "the argument `%s`" % nm
+                elif d.kind in ("assign", "with") and d.value is not None:
+                    res = res or _outlives_call(fa, d.value, d.node, value_params, depth - 1)
+                elif d.kind in ("import", "def"):
+                    continue
+            return res
+        if isinstance(t, ast.Name):
+            mod = fa.fi.module
+            if t.id in getattr(mod, "assigns", {}) and t.id not in mod.functions and t.id not in mod.classes:
+                return "the module-level `%s`" % t.id
+            return None
+    if isinstance(t, ast.Attribute):
+        root = t.value
+        while isinstance(root, (ast.Attribute, ast.Subscript)):
+            root = root.value
+        if isinstance(root, ast.Call) and isinstance(root.func, ast.Name) and root.func.id == "type":
+            return A.norm(t)
+        if isinstance(root, ast.Name):
+            if root.id in value_params:
+                return None
+            ps = fa.fi.params
+            if root.id in ("self", "cls") or (fa.fi.cls is not None and ps and root.id == ps[0]) or root.id in fa.fi.module.classes:
+                return A.norm(t)
+            # a field of a local object: of what the local was made from
+            r = _outlives_call(fa, root, at, value_params, depth - 1) if depth > 0 else None
+            return A.norm(t) if r else None
+    return None
+
+
+def _never_written_table(fa, t):
+    """is the container `t` a table of the program itself: a module-level or class-level name bound once to a display (or a
+    dict / frozenset / tuple / MappingProxyType made from one) that nothing in the module stores into, changes or re-binds?
+    Nothing a call leaves behind can be found in it, so looking a value up in it (a dispatch table, a set of special
+    values) is not a memo."""
+    t = strip_cast(t)
+    mod = fa.fi.module
+    if isinstance(t, ast.Name):
+        name, v = t.id, getattr(mod, "assigns", {}).get(t.id)
+        if v is None or fa.df.reaching(fa.cfg.exit, name):
+            return False
+    elif isinstance(t, ast.Attribute):
+        name = t.attr
+        root = t.value
+        if isinstance(root, ast.Call) and isinstance(root.func, ast.Name) and root.func.id == "type" and len(root.args) == 1:
+            root = root.args[0]
+        if not isinstance(root, ast.Name):
+            return False
+        if root.id in mod.classes:
+            cands = [mod.classes[root.id]]
+        elif fa.fi.cls is not None and fa.fi.params and root.id == fa.fi.params[0]:
+            cands = [fa.fi.cls]
+        else:
+            return False
+        vals = [st.value for ci in cands for st in ci.node.body
+                if (isinstance(st, ast.Assign) and any(isinstance(x, ast.Name) and x.id == name for x in st.targets))
+                or (isinstance(st, ast.AnnAssign) and isinstance(st.target, ast.Name) and st.target.id == name and st.value is not None)]
+        if len(vals) != 1:
+            return False
+        v = vals[0]
+    else:
+        return False
+    return never_rebound_display(mod, name, v)
+
+
+def values_by_equality_clause(ck, rule, modules):
+    """A bound value and its type are the identity of a call: True, 1 and 1.0 are three different arguments.  A dict / set
+    lookup compares by Python equality and hash, under which they are one.  So no value of the argument domain may be
+    (part of) the key under which something is looked up or kept in a container that outlives the call: the second of two
+    equal-comparing values would be answered with what the first one left there."""
+    from .valeq import VALUE_PARAMS
+    n = 0
+    for qual, params in sorted(VALUE_PARAMS.items()):
+        if qual.split(".")[0] not in modules:
+            continue
+        fi = ck.repo.try_func(qual)
+        if fi is None:
+            continue
+        fa = FA(ck, fi)
+        vp = set(params)
+        sites = []   # (container expr, key expr, node to show)
+        for x in A.walk_body(fa.node):
+            if isinstance(x, ast.Subscript) and not isinstance(x.slice, ast.Slice):
+                sites.append((x.value, x.slice, x))
+            elif isinstance(x, ast.Call) and isinstance(x.func, ast.Attribute) and x.func.attr in _EQ_LOOKUPS and x.args:
+                sites.append((x.func.value, x.args[0], x))
+            elif isinstance(x, ast.Compare) and len(x.ops) == 1 and isinstance(x.ops[0], (ast.In, ast.NotIn)):
+                sites.append((x.comparators[0], x.left, x))
+        for (t, k, x) in sites:
+            ids = fa.nodes(x)
+            if not ids:
+                continue
+            n += 1
+            vals = _value_in_key(fa, k, ids[0], vp)
+            if not vals:
+                continue
+            where = _outlives_call(fa, t, ids[0], vp)
+            if not where or _never_written_table(fa, t):
+                continue
+            ck.ob(rule, fa.key(x, "by-equality:" + A.norm(t)), False,
+                  "`%s` looks up / keeps an entry of %s, which outlives the call, under a key that holds the argument values %s as Python values: "
+                  "dict and set keys are compared with == and hash, under which True, 1 and 1.0 (0, 0.0 and False) are one key, so the second of two "
+                  "equal-comparing arguments of different type is answered with what the first one left there - it gets the first one's bound values, "
+                  "key and memoized result, although the two are different calls" % (A.short(x, 60), where, sorted(vals)), fa.where(x))
+    ck.ob(rule, "values-by-equality::scan", True, "%d lookups in the value-carrying functions of %s; none keys state that outlives the call by an argument value" % (n, list(modules)), "")
+
+
 def check(ck):
     from .memo import check_new_memo_tables
     ck.run(check_new_memo_tables, ck, "C04.M1", ('reference', 'base', 'serialization'))
@@ -1223,7 +1714,7 @@ def check(ck):
             dp = fa.deps(d.value, d.node)
             if ("call:normalize" in dp or ("call:_decode" in dp and "call:_encode" in dp)) and ("param:" + src) in dp:
                 n_norm += 1
-            elif fa.xnorm(d.value, d.node) not in EMPTY:
+            elif not is_empty_value(fa.xnorm(d.value, d.node)):
                 return False
         return n_norm >= 1
 
@@ -1650,3 +2141,9 @@ def check(ck):
     from .c16 import sibling_reference_sites
     ck.rule("C04.R5", "every keyed reference construction in base.py (call, call_batch, forget, memento, metadata) passes the function's context args, so all entry points compute the same key", 6)
     sibling_reference_sites(ck, "C04.R5")
+    ck.rule("C04.R7", "the argument hash follows what it is computed from: whoever binds a key field (fn_reference, args, kwargs, context_args, effective kwargs) "
+                      "of a FunctionReferenceWithArguments outside its constructor binds every field derived from it again afterwards", 1)
+    ck.run(derived_fields_clause, ck, "C04.R7")
+    ck.rule("C04.R8", "bound values keep their type wherever they are looked up: no value of the argument domain is (part of) a dict / set key, compared by "
+                      "Python equality, in a container that outlives the call", 1)
+    ck.run(values_by_equality_clause, ck, "C04.R8", ("reference", "base"))
